@@ -403,6 +403,9 @@ def shard(seed, idx, n, tier):
         cli_case(rng.randrange(10**9), res)
     for _ in range(max(2, n // 12)):
         surrogate_case(rng.randrange(10**9), res)
+    from harness import clicall       # which keys, directory and time limit in-toto-verify hands to the library
+    for _ in range(max(3, n // 8)):
+        clicall.one_other(rng, res, "verify")
     return res
 
 
